@@ -33,6 +33,7 @@ def must_see(tier):
         m[impl + ':setstate-on-live'] = 200
         m[impl + ':setstate-empty-on-live'] = 5
         m[impl + ':setstate-on-chained-leaf'] = 20
+        m[impl + ':ctor-copy-independent'] = 100
     m['c-written-keys-cross-load'] = 20
     for p in range(6):
         m['protocol:%d' % p] = 50
@@ -694,6 +695,52 @@ def run_case(fam, kind, rng, rec, ci):
                 type(e).__name__, e), **dict(desc, impl=impl, **d))
             continue
         check_clone(sc, impl, 'copy', deep=False)
+    # ---- copy by constructor: T(t) -------------------------------------------
+    # documented as "initialise from the items of another collection": a
+    # container of its own with equal contents.  Built the same way by both
+    # implementations (same pickle), and sharing nothing with its source:
+    # what is done to the copy afterwards must not show in the original.
+    ctor = {}
+    for impl, o in objs.items():
+        try:
+            ctor[impl] = type(o)(o)
+        except Exception as e:
+            fail('constructor-copy-raised', impl, detail='%s: %s' % (
+                type(e).__name__, e))
+    if len(ctor) == 2:
+        rec.ev('ctor-copy')
+        try:
+            same = pickle.dumps(ctor['c'], 3) == pickle.dumps(ctor['py'], 3)
+            if not same:
+                a_, b_ = dumps_nomemo(ctor['c'], 3), dumps_nomemo(ctor['py'], 3)
+                tag = 'F13' if a_ == b_ else 'F35' if (
+                    fam.vc == 'F' and differ_only_in_zero_sign(a_, b_)) \
+                    else None
+                rec.violation('c-and-python-pickles-differ', impl='c-vs-py',
+                              proto=3, how='T(t)', memo_only=bool(tag),
+                              **dict(desc, **({'finding': tag} if tag
+                                              else {})))
+        except Exception as e:
+            fail('pickle-raised', 'c', how='T(t)', detail='%s: %s' % (
+                type(e).__name__, e))
+        for impl, o in objs.items():
+            if not check_clone(ctor[impl], impl, 'ctor-copy', deep=True):
+                continue
+            # the 20 calls just made on the copy must not have touched the
+            # source
+            try:
+                got = harness.contents(o, is_mapping)
+                errs = hist.structural_checks(o, is_mapping)[0] \
+                    if is_tree else []
+            except Exception as e:
+                got, errs = None, [('raised', '%s: %s' % (
+                    type(e).__name__, e))]
+            if errs or not eq(got, want):
+                fail('source-changed-through-its-copy', impl,
+                     observed=brief(got, 300), expected=brief(want, 300),
+                     errors=errs[:3])
+                return
+            rec.ev(impl + ':ctor-copy-independent')
     # ---- __setstate__ onto a live, populated object ------------------------
     for impl, o in objs.items():
         if not f22.get(impl):
